@@ -11,8 +11,8 @@ LenientFaults == {"pathunderflow"}
 \* ---- integer programs (Unit = 1)
 CoarseVals  == {-3000, -1132, -1131, -108, -107, -1, 0, 1, 107, 108, 1131, 1132, 2500}
 CoarseSVals == {-3, 0, 2, 5, 100}
-CoarseDWs   == {0, 500, 1000}
-CoarseNWs   == {0, 600, -50}
+CoarseDWs   == {0, 100, 500, 2000}        \* one per DICT integer size class (1, 2, 3 bytes) and absent
+CoarseNWs   == {0, 600, -50, -1200}
 AllSizes    == {0, 1, 1239, 1240, 33899, 33900, 40000}
 SomeBytes   == {0, 1, 14, 28, 128, 255}
 
